@@ -456,7 +456,7 @@ def run(rep, repo, tier):
                      construct='tokeniser: ' + msg)
         if not viol:
             rep.ok('C10.R1', rf.where, 'tokeniser x reference grammar: %d product states, %d transitions, dense ranks from 1' % (stats['product_states'], stats['transitions']),
-                   got={str(k): str(v) for k, v in sorted(rt.table.items())})
+                   got={str(k): str(v) for k, v in sorted(rt.table.items(), key=str)})
         # element order preserved: both lists are appended exactly once per token (checked per row by ReaderTable) and returned as (elements, ranks)
         rep.check(rt.ret_order[1] == rt.rank_list, 'C10.R1', rf.where, 'the tokeniser returns (elements, ranks) in that order', got=rt.ret_order, want='(elements, %s)' % rt.rank_list,
                   construct='tokeniser return order')
